@@ -91,6 +91,11 @@ var gens = []generator{
 	{file: "GbSlice.lean", src: "seqio/genbank.go (GenBankFields.Slice)", run: genGbSlice},
 	{file: "IoDelegateFacts.lean", src: "cmd/gts/io.go (the cache protocol: newIODelegate, TryCache, Write, Commit, Close as facts)", run: genIoDelegateFacts},
 	{file: "IoDelegate.lean", src: "cmd/gts/io.go (gtsCacheDir, newIODelegate, Commit, Write, Close, TryCache as functions over I/O primitives)", run: genIoDelegateFn},
+	{file: "CmdSelect.lean", src: "cmd/gts/select.go (the filter, the step), clear.go, define.go, annotate.go (the per-record steps)", run: genCmdSelect},
+	{file: "CmdReverse.lean", src: "cmd/gts/reverse.go, complement.go (the per-record steps)", run: genCmdReverse},
+	{file: "CmdRepair.lean", src: "cmd/gts/repair.go (the per-record step)", run: genCmdRepair},
+	{file: "CmdSearch.lean", src: "cmd/gts/search.go (the per-record step)", run: genCmdSearch},
+	{file: "CmdSort.lean", src: "cmd/gts/sort.go (byLength.Less)", run: genCmdSort},
 	{file: "CmdFacts.lean", src: "cmd/gts/*.go (the command functions without a regenerated tie of their own, as facts; the inventory of cmd/gts)", run: genCmdFacts},
 }
 
